@@ -276,25 +276,26 @@ def allQRefs (m : RefMap) : List Ref :=
 def qOnly (m : RefMap) : List Ref :=
   (m.filter (fun rc => match rc.1 with | .q _ => true | _ => false)).map (·.1)
 
+/-- `merge_queues` for one selected pull request: every destination it targets is fast-forwarded to its
+    queue commit (a later selected pull request overwrites: in the end each destination is on the queue
+    commit of the NEWEST selected pull request that targets it) -/
+def mergeTargets (pr : Nat) (src : String) (m : RefMap) (ts : List Dest) : RefMap :=
+  ts.foldl (fun m d => match m.get (.qw pr d src) with
+    | some c => m.set (.dest d) c
+    | none => m) m
+
+def mergeEntry (m : RefMap) (e : QEntry) : RefMap := mergeTargets e.pr e.src m e.targets
+
 /-- `handle_merge_queues`: merge the selected pull requests `sel` (ids; chosen by `QueueCollection`). -/
 def planQueues (s : Sys) (sel : List Nat) : Plan :=
   let entries := s.queue.filter (fun e => sel.contains e.pr)
   if entries.isEmpty then ⟨s.g, [], "nothing-selected", s.queue⟩
   else
-    -- newest selected entry per destination: later entries overwrite earlier ones
-    let heads : List (Dest × QEntry) := entries.foldl (fun acc e =>
-      e.targets.foldl (fun a d => (d, e) :: a.filter (fun x => x.1 != d)) acc) []
-    let loc0 : RefMap := s.remote
-    -- fast-forward every destination to the queue commit of its newest selected pull request
-    let loc1 := heads.foldl (fun m de =>
-      match m.get (.qw de.2.pr de.1 de.2.src) with
-      | some c => m.set (.dest de.1) c
-      | none => m) loc0
+    let loc1 := entries.foldl mergeEntry s.remote
     -- delete the merged queue-integration branches and the integration branches of the merged pull requests
     let gone : List Ref := entries.flatMap (fun e =>
       e.targets.flatMap (fun d => [Ref.qw e.pr d e.src, Ref.w d e.src]))
-    let loc2 := delRefs loc1 gone
-    ⟨s.g, [.pushAll loc2 true], "Merged", s.queue.filter (fun e => !sel.contains e.pr)⟩
+    ⟨s.g, [.pushAll (delRefs loc1 gone) true], "Merged", s.queue.filter (fun e => !sel.contains e.pr)⟩
 
 /-- `add_to_queue` (after the gates): queue branches are created (and pushed) if missing, the pull
     request's changes are merged on top of every queue, and everything is pushed in one (non-atomic) push. -/
@@ -415,8 +416,22 @@ def planReset (s : Sys) (pr : PrInfo) : Plan :=
 /-- rebuild / delete queues: every q/ and q/w/ branch goes -/
 def planDropQueues (s : Sys) : Plan :=
   let qs := allQRefs s.remote
-  if qs.isEmpty then ⟨s.g, [], "JobSuccess", s.queue⟩
+  if qs.isEmpty then ⟨s.g, [], "JobSuccess", []⟩
   else ⟨s.g, [.pushAll (delRefs s.remote qs) true], "JobSuccess", []⟩
+
+def Dest.isDev : Dest → Bool
+  | .dev _ _ => true
+  | _ => false
+
+/-- `create_branch` once its checks passed: the new branch is pushed; with queues enabled a new development
+    branch is followed, inside the same job, by the queue rebuild (all `q/` branches deleted; the queued pull
+    requests are re-submitted as ordinary evaluations afterwards) -/
+def planCreateBranch (s : Sys) (d : Dest) (c : Commit) : Plan :=
+  if s.useQueue && d.isDev then
+    let remote1 := s.remote.set (.dest d) c
+    let qs := allQRefs remote1
+    ⟨s.g, [.push [(.dest d, c)]] ++ (if qs.isEmpty then [] else [.pushAll (delRefs remote1 qs) true]), "JobSuccess", []⟩
+  else ⟨s.g, [.push [(.dest d, c)]], "JobSuccess", s.queue⟩
 
 /-! ### Events and the step function -/
 
@@ -444,7 +459,7 @@ def plan (s : Sys) : Event → Plan
   | .reset pr => planReset s pr
   | .evalQueues sel => planQueues s sel
   | .dropQueues => planDropQueues s
-  | .createBranch d c => ⟨s.g, [.push [(.dest d, c)]], "JobSuccess", s.queue⟩
+  | .createBranch d c => planCreateBranch s d c
   | .deleteBranch d => ⟨s.g, (if s.remote.has (.q d) then [Op.delete (.q d)] else []) ++ [.delete (.dest d)], "JobSuccess", s.queue⟩
   | _ => ⟨s.g, [], "external", s.queue⟩
 
